@@ -357,10 +357,10 @@ def push(self, value, prefix=None, side='back', expire=None, read=False, tag=Non
     now = time.time()
     raw = True
     expire_time = None if expire is None else now + expire
-    size, mode, filename, db_value = self._disk.store(value, read)
-    columns = (expire_time, tag, size, mode, filename, db_value)
     order = __Hk_order__
     select = __Hq_select__ % order[side]
+    size, mode, filename, db_value = self._disk.store(value, read)
+    columns = (expire_time, tag, size, mode, filename, db_value)
     with self._transact(retry, filename) as (sql, cleanup):
         rows = sql(select, (min_key, max_key, raw)).fetchall()
         if rows:
